@@ -208,6 +208,22 @@ def run(ctx):
             ctx.ob("R-C01.5", fn, "journaled-operation-is-applied", not rets2,
                    "after the append every success path applies the operation to the tree" if not rets2 else "the operation can be journaled and acknowledged without being applied to the tree", nontrivial=bool(rets2))
 
+    # ---- R-C01.9 the two derived answers of the Readable defaults: is_empty = "no first key" and len = one per element
+    ie = ctx.fn("readable::Readable::is_empty", "R-C01.9")
+    if ie:
+        ret = ctx.og(ie).of_local(0)
+        calls = [x.a[0] for x in A.walk(ret) if x.k == "call"]
+        ok = any(c.endswith("Option::<T>::is_none") for c in calls) and not any(c.endswith("Option::<T>::is_some") for c in calls) and any(c == "readable::Readable::first_key_value" for c in calls) \
+            and not any(x.k == "un" and x.a[0] == "Not" for x in A.walk(ret))
+        ctx.ob("R-C01.9", ie, "is_empty-means-no-first-key", ok, "is_empty = first_key_value(..).is_none()" if ok else "Readable::is_empty is not `first_key_value(..) is None`: %s" % A.tstr(ret)[:120])
+    ln = ctx.fn("readable::Readable::len", "R-C01.9")
+    if ln:
+        ogl = ctx.og(ln)
+        adds = [(b, st) for b, blk in enumerate(ln.blocks) if not blk["cleanup"] for st in blk["s"] if st["rv"]["k"] == "bin" and str(st["rv"].get("op", "")).startswith(("Add", "Sub", "Mul"))]
+        ok = len(adds) == 1 and str(adds[0][1]["rv"]["op"]).startswith("Add") and A.in_cycle(ln, adds[0][0]) and (adds[0][1]["rv"]["b"].get("const") or {}).get("val") == 1
+        it = [b for b, t in ln.calls() if A.cname(t) == "readable::Readable::iter"]
+        ctx.ob("R-C01.9", ln, "len-counts-one-per-element", ok and bool(it), "len = number of elements of iter(): count += 1 per element" if (ok and it) else "Readable::len does not add exactly 1 per element of iter()")
+
     # ---- cross-cutting disciplines (rules/discipline.py)
     from .. import discipline as D
     # a read that fails must say so (a swallowed error in len()/is_empty() is a wrong answer)
